@@ -125,6 +125,8 @@ pub struct Instrumented {
     /// total read+write+seek calls allowed (0 = unlimited)
     pub budget: u64,
     pub budget_exceeded: Rc<RefCell<bool>>,
+    /// how many of the next flush() calls of the medium fail
+    pub flush_failures: Rc<RefCell<u32>>,
 }
 
 impl Instrumented {
@@ -136,6 +138,7 @@ impl Instrumented {
             fault_hits: Rc::new(RefCell::new(0)),
             budget: 0,
             budget_exceeded: Rc::new(RefCell::new(false)),
+            flush_failures: Rc::new(RefCell::new(0)),
         }
     }
     pub fn with_plan(mut self, plan: Option<Plan>) -> Instrumented {
@@ -195,6 +198,13 @@ impl Write for Instrumented {
     }
     fn flush(&mut self) -> io::Result<()> {
         self.counts.borrow_mut().flushes += 1;
+        {
+            let mut left = self.flush_failures.borrow_mut();
+            if *left > 0 {
+                *left -= 1;
+                return Err(io::Error::new(io::ErrorKind::Other, "verif: injected flush failure"));
+            }
+        }
         self.inner.flush()
     }
 }
